@@ -322,7 +322,7 @@ BansMonotoneStep == Ev.a # "Reset" => bans \subseteq bans'
 (* cache lazily evaluated arguments of recursive operators in primed        *)
 (* expressions.                                                             *)
 RestartEquivAtStart ==
-  (Ev.a = "StartBegin" /\ disk.keys # "absent") => RestartEquivNow
+  (Ev.a = "StartBegin" /\ disk.keys # "absent" /\ pend.kind # "crashed") => RestartEquivNow
 
 (* C17, server side: an entry changes only to become banned; banned stays *)
 SrvListStep ==
@@ -338,7 +338,7 @@ SrvListStep ==
 InvByName(n) ==
   CASE n = "SlotIsFunctionOfSet" -> SlotIsFunctionOfSet'
     [] n = "IndexInBounds"       -> IndexInBounds'
-    [] n = "ArchiveContiguous"   -> ArchiveContiguous'
+    [] n = "ArchiveContiguous"   -> (up' \notin {"down", "failed"} => ArchiveContiguous')
     [] n = "ArchiveSigned"       -> ArchiveSigned'
     [] n = "SelfConsistent"      -> SelfConsistent'
     [] n = "BannedStaysOut"      -> BannedStaysOut'
@@ -350,6 +350,8 @@ InvByName(n) ==
     [] n = "BansMonotone"        -> BansMonotoneStep
     [] n = "RestartEquiv"        -> RestartEquivAtStart
     [] n = "SrvList"             -> SrvListStep
+    [] n = "StartAlwaysOK"       -> (Ev.a = "DiskIs" => StartOK(disk'))
+    [] n = "StillRegistrable"    -> StillRegistrable'
 
 InvCheck ==
   IF l = DiagLine
@@ -429,6 +431,37 @@ TMigrateResp ==
   /\ pend' = NoPend
   /\ UNCHANGED <<vars, rot, atag>>
 
+(* C05.  The process was killed (at an armed crash point or by SIGKILL).    *)
+(* DiskIs carries the decoded files as the next start will find them.  The  *)
+(* durable prefix rule: the files are those of the completed operations,    *)
+(* plus at most the one write that was in flight; records are never torn.   *)
+OneMore(a, b) == b = a \/ (Len(b) = Len(a) + 1 /\ SubSeq(b, 1, Len(a)) = a)
+TCrash ==
+  /\ Ev.a = "Crash"
+  /\ up' = "down"
+  /\ UNCHANGED <<now, gca, equip, pkidx, bans, offset, live, impact, archive, servers, migr, disk, seen>>
+  /\ pend' = [kind |-> "crashed", phase |-> up] /\ UNCHANGED <<rot, atag>>
+TDiskIs ==
+  /\ Ev.a = "DiskIs"
+  /\ LET r == UnDisk(Ev.disk) IN
+     /\ disk' = r
+     /\ ("Start" \in Strict /\ ~Ev.edited =>
+           /\ Ev.disk.tails = <<0, 0, 0>>
+           /\ OneMore(disk.auths, r.auths) /\ OneMore(disk.reports, r.reports) /\ OneMore(disk.stats, r.stats)
+           /\ (r.gcafile = disk.gcafile \/ disk.gcafile \in {"absent", "empty"})
+           /\ \/ r.keys = disk.keys \/ disk.keys \in {"absent", "empty"}
+              \* killed inside the very first start: the key file was created, not yet written
+              \/ (pend.kind = "crashed" /\ pend.phase = "catchup" /\ r.keys = "empty"
+                    /\ r.auths = <<>> /\ r.gcafile = "absent")
+           \* at most one write was in flight
+           /\ Cardinality({f \in {"auths", "reports", "stats", "gcafile"} :
+                             CASE f = "auths" -> r.auths # disk.auths
+                               [] f = "reports" -> r.reports # disk.reports
+                               [] f = "stats" -> r.stats # disk.stats
+                               [] f = "gcafile" -> r.gcafile # disk.gcafile}) <= 1)
+  /\ UNCHANGED <<now, up, gca, equip, pkidx, bans, offset, live, impact, archive, servers, migr, seen>>
+  /\ KeepAux
+
 (* an HTTP request that does not pass validation, the liveness probe that   *)
 (* follows every input, and shutdown with connections left open            *)
 THttp ==
@@ -492,7 +525,7 @@ TNext ==
      \/ TQueryStats \/ TStatsResp
      \/ TEquipmentResp \/ TCheckInv \/ TBatchBegin \/ TRegisterInBatch \/ TBatchEnd
      \/ TAuthorizeServer \/ TAuthorizeServerResp \/ TServersResp \/ TMigrate \/ TMigrateResp
-     \/ TSyncRead \/ TSyncServers \/ TSyncResp \/ THttp \/ TConns \/ TLogPanics
+     \/ TSyncRead \/ TSyncServers \/ TSyncResp \/ THttp \/ TConns \/ TLogPanics \/ TCrash \/ TDiskIs
   /\ InvCheck
 
 TInit ==
